@@ -1031,6 +1031,8 @@ Section Ops.
     | _ => fail EEval
     end.
 
+  Definition is_bool_val (v : val) : bool := match v with VBool _ => true | _ => false end.
+
   Definition op_bitwise (f : Z -> Z -> Z) (args : list val) : M val :=
     vs <- eval_args args ;;
     assert (forallb is_int_val vs) ;;;
@@ -1039,7 +1041,10 @@ Section Ops.
     | [x] => ret x
     | x :: r =>
         match int_of x, map_opt int_of r with
-        | Some z, Some zs => ret (VInt (fold_left f zs z))
+        | Some z, Some zs =>
+            (* Python: bool op bool is a bool, anything else an int *)
+            let res := fold_left f zs z in
+            ret (if forallb is_bool_val vs then VBool (negb (res =? 0)) else VInt res)
         | _, _ => fail EEval
         end
     end.
